@@ -165,6 +165,14 @@ def evaluate(case: Dict[str, Any], oracles: Sequence[str], nontrivial: Callable[
     res.cls("async" if case.get("async") else "sync")
     if case.get("sel"):
         res.cls("sel")
+    if case.get("nested"):
+        res.cls("called-as-nested-dag")
+    if case.get("derive"):
+        res.cls("derived-" + case["derive"])
+    if case.get("warm"):
+        res.cls("warm-call-before")
+    if case.get("group_conf"):
+        res.cls("config-by-group-tag")
     if case.get("failing"):
         res.cls("fault")
         if any(s_["failed_ran"] for s_ in all_stats):
@@ -208,6 +216,7 @@ def sched_case(
     setup_call_rate: float = 0.0,
     flag_rate: float = 0.0,
     warm_rate: float = 0.3,
+    nested_rate: float = 0.15,
 ) -> Dict[str, Any]:
     mode = draw(st.sampled_from(list(modes)))
     res_pool = list(resources)
@@ -304,6 +313,13 @@ def sched_case(
     if warm_rate and not case.get("failing") and case.get("call") != "setup" and gen.chance(draw, warm_rate) \
             and not any(f.get("setup") for f in P["fns"].values()):
         case["warm"] = True  # the instance has been called once before it is (re)configured and observed
+    if nested_rate and not case.get("sel") and case.get("call") != "setup" and not n_params and gen.chance(draw, nested_rate):
+        case["nested"] = True  # the program is called as a DAG nested in an outer DAG
+    elif nested_rate and case.get("call") != "setup" and not n_params and gen.chance(draw, nested_rate):
+        # the DAG object that runs is derived from the described one: a deep copy, compose() of everything, an executor
+        plain_ret = all(e[0] == "v" for e in P["ret"][1])
+        opts = ["deepcopy", "executor"] + (["compose"] if plain_ret and not case.get("sel") and not any(f.get("setup") or f.get("debug") for f in P["fns"].values()) else [])
+        case["derive"] = draw(st.sampled_from(opts))
     if profile_rate and draw(st.floats(0, 1)) < profile_rate:
         case["profile"] = True  # cfg.TAWAZI_PROFILE_ALL_NODES: every node runs inside the profiling context
     if config_rate and draw(st.floats(0, 1)) < config_rate:
